@@ -145,7 +145,7 @@ func (s *tunnelServer) createStream(ctx context.Context, streamID int64, frame *
 		return true, status.Errorf(codes.Unavailable, "server does not support protocol revision %d", frame.ProtocolRevision)
 	}
 
-	if frame.MethodName[0] == '/' {
+	if frame.MethodName != "" && frame.MethodName[0] == '/' {
 		frame.MethodName = frame.MethodName[1:]
 	}
 	parts := strings.SplitN(frame.MethodName, "/", 2)
